@@ -187,6 +187,7 @@ type VCtx struct {
 	insts      []qinst
 	seq        int
 	instRounds int
+	capture    *[]*Term // when set, assumptions are collected here instead of the timeline
 }
 
 type qtrig struct {
@@ -254,6 +255,10 @@ func newVCtx() *VCtx {
 
 func (c *VCtx) assume(t *Term) {
 	if t.IsTrue() {
+		return
+	}
+	if c.capture != nil {
+		*c.capture = append(*c.capture, t)
 		return
 	}
 	c.hyps = append(c.hyps, t)
